@@ -3,13 +3,14 @@
   `Model/C06.lean` (credentials table, `MatchURL`/`Match`, `upstreamProxyURL`, `pacAttach`,
   `setBasicAuth`, `resolve`) and the messages the request pipeline writes upstream
   (`Model/Req.lean`: `processRequest`/`writeRequest`, `transportConnectHead`, `processConnect`/
-  `dialviaConnectHead`).  Helper lemmas are in `Lemmas/C06.lean`.
+  `dialviaConnectHead`).  Helper lemmas are in `Lemmas/C06.lean`, `Lemmas/C06Seq.lean`, `Lemmas/C06Conc.lean`.
 
   Wire-level statements talk about `OutMsg.fields`: lower-case field name ↦ the values of the field
   lines with that name, in order, as the hop receives them.
 -/
 import FwdVerif.Lemmas.C06
 import FwdVerif.Lemmas.C06Seq
+import FwdVerif.Lemmas.C06Conc
 import FwdVerif.Lemmas.ReqUpgrade
 
 namespace FwdVerif
@@ -877,6 +878,174 @@ theorem c06_host_memo_witness :
 example : PacProxyAddr gwA ∧ PacProxyAddr gwB ∧ gwA.host ≠ gwB.host :=
   ⟨⟨bs "gw.test", bs "3128", by with_unfolding_all decide⟩, ⟨bs "gw.test", bs "3129", by with_unfolding_all decide⟩,
    by with_unfolding_all decide⟩
+
+/-! ## F. Requests in flight at the same time: what a hop is sent depends on that request alone
+
+The model is a function of (configuration, request).  That the implementation is one as well while other requests
+are in flight is a statement about the matcher all requests share: it is stated over the matcher as a machine
+whose lookups are interleaved by a schedule (`runSched`). -/
+
+/-- `CredentialsMatcher.Match` with other lookups in flight: under EVERY schedule, whatever the other lookups
+    ask for and wherever they stand, a lookup that got to run has the table's answer for its own host:port -/
+theorem c06_lookup_answer_independent_of_schedule (t : Option CredTable) (s : Unit) (ls : Nat → Lookup)
+    (sched : List Nat) (i : Nat) (h0 : (ls i).pc = .start) (hm : i ∈ sched) :
+    ((runSched (tableMatcher t) s ls sched).2 i).hp = (ls i).hp ∧
+    ((runSched (tableMatcher t) s ls sched).2 i).pc = .done (matchHostport t (ls i).hp) :=
+  ⟨(runSched_table_inv t sched s ls i).1, runSched_table_done t sched s ls i h0 hm⟩
+
+/-- what lookups can get from the table matcher, over all schedules and all companies of other lookups, is the
+    function `matchHostport t` and nothing else -/
+theorem c06_table_matcher_serves_the_table (t : Option CredTable) (look : Bytes → Option Cred) :
+    ServedBy (tableMatcher t) () look ↔ look = matchHostport t := by
+  constructor
+  · intro h
+    funext hp
+    obtain ⟨ls, sched, i, h0, hhp, hm, hd⟩ := h hp
+    have := (c06_lookup_answer_independent_of_schedule t () ls sched i (h0 i) hm).2
+    rw [this, hhp] at hd
+    exact (LookupPc.done.inj hd).symm
+  · rintro rfl hp
+    exact ⟨fun _ => { hp := hp }, [0], 0, fun _ => rfl, rfl, List.mem_cons_self, rfl⟩
+
+/-- the heads written on behalf of a request (plain, intercepted, CONNECT) whose lookups were answered by the
+    matcher while ANY other lookups were in flight under ANY schedule are the model's answer for that request
+    alone: what a hop is sent depends on the configuration and on this request, never on what else is in flight -/
+theorem c06_heads_depend_only_on_own_request (fc : FullCfg) (look : Bytes → Option Cred)
+    (h : ServedBy (tableMatcher fc.table) () look) (ctx : Ctx) :
+    (∀ r : Request, requestActionsWith look fc ctx r = requestActions fc ctx r) ∧
+    (∀ q : ConnectReq, connectActionsWith look fc ctx q = connectActions fc ctx q) := by
+  have hl := (c06_table_matcher_serves_the_table fc.table look).mp h
+  subst hl
+  constructor
+  · intro r
+    unfold requestActionsWith requestActions
+    simp only [resolveWith_table]
+  · intro q
+    unfold connectActionsWith connectActions
+    simp only [resolveWith_table]
+
+/-- a batch of requests in flight together is served pointwise: the k-th answer is the answer to the k-th request
+    on its own, whatever the batch and its order -/
+theorem c06_batch_pointwise (fc : FullCfg) (ctx : Ctx) (rs : List Request) (k : Nat) :
+    (rs.map (requestActions fc ctx))[k]? = rs[k]?.map (requestActions fc ctx) := List.getElem?_map
+
+/-- the two-cell "last lookup" memo answers like the table as long as lookups are made one at a time (each
+    finished before the next starts), from every state in which the two cells agree with the table, for every
+    sequence of lookups: no sequential run of requests tells it from the code's matcher -/
+theorem c06_two_slot_cache_sound_in_turn (t : Option CredTable) (hps : List Bytes) :
+    ∀ s : LastSlots, SlotsAgree t s →
+      lookupsInTurn (twoSlotCache t) s hps = hps.map fun hp => LookupPc.done (matchHostport t hp) := by
+  induction hps with
+  | nil => intro s _; rfl
+  | cons hp hps ih =>
+    intro s hs
+    obtain ⟨h1, h2⟩ := lookupAlone_twoSlot t s hp hs
+    simp only [lookupsInTurn, h1, ih _ h2, List.map_cons]
+
+example : SlotsAgree (some {}) {} := by intro k hk; cases hk
+
+def raceTable : List CredEntry := [⟨bs "a.test", bs "80", (bs "alice", bs "pwA")⟩]
+/-- lookup 0 is for `a.test:80` (has an entry), lookups 1 and 2 are for `b.test:80` (no entry) -/
+def raceLookups : Nat → Lookup := fun j => if j = 0 then { hp := bs "a.test:80" } else { hp := bs "b.test:80" }
+
+/-- … and is wrong when two lookups overlap.  Lookups 0 (`a.test:80`) and 1 (`b.test:80`) both miss; the stores
+    interleave as key a, key b, answer none, answer alice: the cells say `b.test:80 ↦ alice`, and lookup 2 for
+    `b.test:80` — a target without any entry — is answered with a.test's credentials (its request would leave with
+    `Authorization: Basic YWxpY2U6cHdB`).  Interleaved the other way round the cells say `a.test:80 ↦ none`
+    and a.test's own request goes without.  The table matcher answers `none` resp. alice under these very
+    schedules. -/
+theorem c06_two_slot_cache_witness :
+    (buildTable raceTable).isSome = true ∧
+    (let t := (buildTable raceTable).getD none
+     matchHostport t (bs "b.test:80") = none ∧
+     matchHostport t (bs "a.test:80") = some (bs "alice", bs "pwA") ∧
+     ((runSched (twoSlotCache t) {} raceLookups [0, 1, 0, 1, 1, 0, 2, 2]).2 2).pc = .done (some (bs "alice", bs "pwA")) ∧
+     (some (bs "alice", bs "pwA")).map (fun c : Cred => basicAuthValue c.1 c.2) = some (bs "Basic YWxpY2U6cHdB") ∧
+     ((runSched (twoSlotCache t) {} (fun j => if j = 1 then { hp := bs "b.test:80" } else { hp := bs "a.test:80" })
+        [0, 1, 1, 0, 0, 1, 2, 2]).2 2).pc = .done none ∧
+     ((runSched (tableMatcher t) () raceLookups [0, 1, 0, 1, 1, 0, 2, 2]).2 2).pc = .done none ∧
+     ¬ ServedBy (tableMatcher t) () (fun _ => some (bs "alice", bs "pwA"))) := by
+  refine ⟨by with_unfolding_all decide, by with_unfolding_all decide, by with_unfolding_all decide,
+    by with_unfolding_all decide, by with_unfolding_all decide, by with_unfolding_all decide,
+    by with_unfolding_all decide, ?_⟩
+  intro h
+  have := (c06_table_matcher_serves_the_table _ _).mp h
+  have := congrFun this (bs "b.test:80")
+  revert this
+  with_unfolding_all decide
+
+/-! ## G. One process, several proxies: the credentials a proxy presents upstream come from its own configuration
+
+A constructor is handed the caller's configuration; the caller may hand the same `*url.URL` to several
+constructors and copy it (`runHist`, cells).  `upstreamProxyURL` completes a copy of the URL (`ctorCopy`). -/
+
+/-- a construction writes nothing into the configuration it is handed: after any history the caller's URLs are
+    what the caller wrote -/
+theorem c06_construction_leaves_configuration_unwritten (cells : List ProxyURL) (ops : List HistOp) :
+    (runHist ctorCopy cells ops).2 = writtenCells cells ops := runHist_copy_cells ops cells
+
+/-- what the caller wrote does not depend on which proxies were constructed in between -/
+theorem c06_written_configuration_ignores_constructions (ops : List HistOp) : ∀ cells : List ProxyURL,
+    writtenCells cells ops = writtenCells cells (ops.filter fun | .build _ _ => false | .derive _ _ => true) := by
+  induction ops with
+  | nil => intro cells; rfl
+  | cons op ops ih =>
+    intro cells
+    cases op with
+    | build c t => simp only [writtenCells_cons, callerStep, List.filter_cons, Bool.false_eq_true, if_false, ih]
+    | derive src host => simp only [writtenCells_cons, List.filter_cons, if_true, ih]
+
+/-- the URL (host and credentials) the k-th constructed proxy presents itself to its upstream proxy with is a
+    function of the URL in ITS cell as the caller wrote it and of ITS table — the URL's userinfo, failing that its
+    table's entry for that URL's host:port — whatever was constructed before, from the same cell or another, with
+    whatever tables -/
+theorem c06_upstream_credentials_from_own_configuration (cells : List ProxyURL) (ops : List HistOp) (k c : Nat)
+    (t : Option CredTable) (u : ProxyURL) (hop : ops[k]? = some (.build c t))
+    (hu : (writtenCells cells (ops.take k))[c]? = some u) :
+    (runHist ctorCopy cells ops).1[k]? = some (some (upstreamProxyURL t u)) ∧
+    (upstreamProxyURL t u).scheme = u.scheme ∧ (upstreamProxyURL t u).host = u.host ∧
+    (upstreamProxyURL t u).user = (match u.user with
+                                   | some c => some c
+                                   | none => matchURL t u.scheme u.host) := by
+  have hk : k < ops.length := by
+    rcases Nat.lt_or_ge k ops.length with h | h
+    · exact h
+    · rw [List.getElem?_eq_none h] at hop; cases hop
+  refine ⟨?_, ?_⟩
+  · rw [runHist_copy_answers ops cells k, if_pos hk, ownAnswer, hop]
+    simp only [hu, Option.map_some]
+  · unfold upstreamProxyURL
+    cases hx : u.user with
+    | none => exact ⟨rfl, rfl, rfl⟩
+    | some c => simp only [hx, and_self]
+
+def histTableA : List CredEntry := [⟨bs "pa.test", bs "3128", (bs "alice", bs "pwA")⟩]
+def histCell : ProxyURL := { scheme := bs "http", host := bs "pa.test:3128" }
+/-- proxy 1 from the URL with alice's table; proxy 2 from the SAME URL without a table; a value copy of the URL
+    pointed at `pb.test:3128`; proxy 3 from the copy without a table -/
+def histOps (t : Option CredTable) : List HistOp := [.build 0 t, .build 0 none, .derive 0 (bs "pb.test:3128"), .build 1 none]
+
+example : (histOps none)[3]? = some (.build 1 none) ∧
+    (writtenCells [histCell] ((histOps none).take 3))[1]? = some { histCell with host := bs "pb.test:3128" } :=
+  ⟨rfl, by with_unfolding_all decide⟩
+
+/-- the constructor that completes the caller's URL in place: after proxy 1 the caller's URL carries alice's
+    credentials; proxy 2 (no table) presents them to `pa.test:3128`, and proxy 3 presents them to `pb.test:3128`,
+    a proxy nothing was configured for.  The copying constructor gives proxies 2 and 3 none and leaves the cells
+    as written. -/
+theorem c06_in_place_constructor_witness :
+    (buildTable histTableA).isSome = true ∧
+    (let t := (buildTable histTableA).getD none
+     let alice : Option Cred := some (bs "alice", bs "pwA")
+     runHist ctorInPlace [histCell] (histOps t) =
+       ([some { histCell with user := alice }, some { histCell with user := alice }, none,
+         some { histCell with host := bs "pb.test:3128", user := alice }],
+        [{ histCell with user := alice }, { histCell with host := bs "pb.test:3128", user := alice }]) ∧
+     runHist ctorCopy [histCell] (histOps t) =
+       ([some { histCell with user := alice }, some histCell, none, some { histCell with host := bs "pb.test:3128" }],
+        [histCell, { histCell with host := bs "pb.test:3128" }]) ∧
+     C05.authValue { histCell with host := bs "pb.test:3128", user := alice } = some (bs "Basic YWxpY2U6cHdB")) := by
+  with_unfolding_all decide
 
 end C06
 end FwdVerif
